@@ -10,6 +10,9 @@ Proof.
   - apply Nat.eqb_neq in E. assert (H : (Z.of_nat (S it) mod Z.of_nat k <> 0)%Z) by (rewrite <- Nat2Z.inj_mod; lia). lia.
 Qed.
 
+Lemma starts_clean : train_starts_with_clean_gradients = true.
+Proof. reflexivity. Qed.
+
 Section Generic.
 Variables (W G : Type) (g : nat -> W -> G) (gzero : G) (gadd : G -> G -> G) (gdiv : nat -> G -> G)
           (clip : G -> G) (opt : W -> G -> nat -> W).
